@@ -259,3 +259,9 @@ Example accounting_fb13_example :
   carry_of false s0 = 0 /\ motor_on fops c 1 false s0 (repeat 10000 250) /\
   tilt (run_cbs fops c 1 s0 (repeat 10000 250)) = 10100 /\ 3200 < pos (run_cbs fops c 1 s0 (repeat 10000 250)) < 3200 + 10000 * 2500000 / 15570000 .
 Proof. vm_compute. repeat split; reflexivity. Qed.
+
+(* assumptions of the examples *)
+Print Assumptions zops_ok.
+Print Assumptions rs_cfg_example.
+Print Assumptions accounting_example.
+Print Assumptions accounting_fb13_example.
